@@ -214,29 +214,35 @@ theorem key_facts :
   decide
 
 /-- the Content-Disposition parameters `; name="…"[; filename="…"]` -/
-theorem parseCD_params (name filename : Bytes) :
+theorem parseCD_params (w : Bool) (name filename : Bytes) :
     parseCD (59 :: 32 :: (nameKey ++ 61 :: (Spec.quote name ++
-        (if filename.isEmpty then [] else Spec.litFilename ++ Spec.quote filename)))) {}
+        (if filename.isEmpty && !w then [] else Spec.litFilename ++ Spec.quote filename)))) {}
       = some { name := name, filename := filename, mime := [] } := by
   obtain ⟨hnk, hfk, hnne, hfne, hl1, hl2, hl3, _⟩ := key_facts
   unfold parseCD
   rw [skipWs_id 59 _ (by decide) (by decide)]
-  generalize hF : (if filename.isEmpty then [] else Spec.litFilename ++ Spec.quote filename) = F
+  generalize hF : (if filename.isEmpty && !w then [] else Spec.litFilename ++ Spec.quote filename) = F
   -- enough fuel for two parameters
   obtain ⟨n, hn⟩ : ∃ n, (59 :: 32 :: (nameKey ++ 61 :: (Spec.quote name ++ F))).length = n + 2 + F.length := by
     refine ⟨nameKey.length + (Spec.quote name).length + 1, ?_⟩
     simp only [List.length_append, List.length_cons]; omega
   rw [hn]
-  by_cases hfn : filename = []
-  · subst hfn
-    simp only [List.isEmpty_nil, if_true] at hF
+  by_cases hcw : (filename.isEmpty && !w) = true
+  · have hfn : filename = [] := by
+      simp only [Bool.and_eq_true] at hcw
+      exact List.isEmpty_iff.mp hcw.1
+    subst hfn
+    simp only [hcw, if_true] at hF
     subst hF
     rw [show n + 2 + ([] : Bytes).length = (n + 1) + 1 from rfl,
       parseCDLoop_succ _ _ _ (by simp), parsePair_quoted nameKey name [] hnne hnk]
     simp only [hl1, hl2, Bool.false_eq_true, if_false, if_true]
     rw [skipWs.eq_def]; rfl
-  · have hfe : filename.isEmpty = false := by cases filename <;> simp_all
-    simp only [hfe, Bool.false_eq_true, if_false] at hF
+  · have hcw' : (filename.isEmpty && !w) = false := by
+      cases h : (filename.isEmpty && !w) with
+      | true => exact absurd h hcw
+      | false => rfl
+    simp only [hcw', Bool.false_eq_true, if_false] at hF
     subst hF
     rw [show n + 2 + (Spec.litFilename ++ Spec.quote filename).length
         = (n + (Spec.litFilename ++ Spec.quote filename).length + 1) + 1 by omega,
@@ -253,20 +259,20 @@ theorem parseCD_params (name filename : Bytes) :
     cases k <;> rfl
 
 /-- the Content-Disposition line -/
-theorem processLine_disposition (name filename : Bytes) :
+theorem processLine_disposition (w : Bool) (name filename : Bytes) :
     processLine (Spec.litDisposition ++ Spec.quote name ++
-        (if filename.isEmpty then [] else Spec.litFilename ++ Spec.quote filename)) {}
+        (if filename.isEmpty && !w then [] else Spec.litFilename ++ Spec.quote filename)) {}
       = some { name := name, filename := filename, mime := [] } := by
   obtain ⟨_, _, _, _, _, _, _, hD, hFD, _, hcD, hcFD, _⟩ := key_facts
   have hshape : Spec.litDisposition ++ Spec.quote name ++
-        (if filename.isEmpty then [] else Spec.litFilename ++ Spec.quote filename) =
+        (if filename.isEmpty && !w then [] else Spec.litFilename ++ Spec.quote filename) =
       Dname ++ 58 :: 32 :: (formData ++ 59 :: 32 :: (nameKey ++ 61 :: (Spec.quote name ++
-        (if filename.isEmpty then [] else Spec.litFilename ++ Spec.quote filename)))) := by
+        (if filename.isEmpty && !w then [] else Spec.litFilename ++ Spec.quote filename)))) := by
     rw [lit_disposition]; nf
   rw [hshape]
-  have hpc := parseCD_params name filename
+  have hpc := parseCD_params w name filename
   generalize hP : (59 :: 32 :: (nameKey ++ 61 :: (Spec.quote name ++
-        (if filename.isEmpty then [] else Spec.litFilename ++ Spec.quote filename)))) = params at hpc ⊢
+        (if filename.isEmpty && !w then [] else Spec.litFilename ++ Spec.quote filename)))) = params at hpc ⊢
   have hhead : ∀ y ys, params = y :: ys → tokenChar y = false := by
     intro y ys e; rw [← hP] at e; cases e; decide
   unfold processLine
@@ -339,15 +345,15 @@ theorem wfmime_no_cr (m : Bytes) (h : Spec.WFmime m) : (13 : UInt8) ∉ m := by
   · exact absurd h1 (by decide)
   · exact (spec_token 13 (hall 13 (by simp [h1])).1).2.2.1 rfl
 
-theorem encodeHeader_headerOK (bkey : Bytes) (p : Part) (hw : Spec.WFpart bkey p) :
-    headerOK (Spec.encodeHeader p) (metaOf p) = true := by
+theorem encodeHeaderW_headerOK (w : Bool) (bkey : Bytes) (p : Part) (hw : Spec.WFpart bkey p) :
+    headerOK (Spec.encodeHeaderW w p) (metaOf p) = true := by
   obtain ⟨hnames, hmime, _⟩ := hw
   obtain ⟨_, _, _, _, _, _, _, _, _, _, _, _, _, _, hD13, hF13, hC13⟩ := key_facts
   have hn : ∀ c ∈ p.name, c ≠ 13 ∧ c ≠ 10 := fun c hc => hnames c (by simp [hc])
   have hf : ∀ c ∈ p.filename, c ≠ 13 ∧ c ≠ 10 := fun c hc => hnames c (by simp [hc])
   -- line 1
   generalize hL1 : Spec.litDisposition ++ Spec.quote p.name ++
-      (if p.filename.isEmpty then [] else Spec.litFilename ++ Spec.quote p.filename) = L1
+      (if p.filename.isEmpty && !w then [] else Spec.litFilename ++ Spec.quote p.filename) = L1
   have hL1cr : (13 : UInt8) ∉ L1 := by
     rw [← hL1]
     intro hm
@@ -363,13 +369,13 @@ theorem encodeHeader_headerOK (bkey : Bytes) (p : Part) (hw : Spec.WFpart bkey p
         · exact quote_no_cr _ hf h2
   have hL1ne : L1 ≠ [] := by rw [← hL1, lit_disposition]; simp [Dname, ofNats, Gen.hdrDisposition]
   have hP1 : processLine L1 {} = some { name := p.name, filename := p.filename, mime := [] } := by
-    rw [← hL1]; exact processLine_disposition p.name p.filename
+    rw [← hL1]; exact processLine_disposition w p.name p.filename
   have hL1e : L1.isEmpty = false := by cases L1 <;> simp_all
   unfold headerOK
   by_cases hm : p.mime = []
   · -- no Content-Type line
-    have hshape : Spec.encodeHeader p = L1 ++ 13 :: 10 :: [13, 10] := by
-      unfold Spec.encodeHeader
+    have hshape : Spec.encodeHeaderW w p = L1 ++ 13 :: 10 :: [13, 10] := by
+      unfold Spec.encodeHeaderW
       simp only [hm, List.isEmpty_nil, if_true, List.append_nil, Spec.crlf]
       rw [← hL1]; simp [List.append_assoc]
     rw [hshape]
@@ -400,8 +406,8 @@ theorem encodeHeader_headerOK (bkey : Bytes) (p : Part) (hw : Spec.WFpart bkey p
     have hc2 : c2 ≠ 13 := fun e => hL2cr (by rw [hL2s, e]; exact List.mem_cons_self)
     have hl2 : (13 : UInt8) ∉ l2 := fun e => hL2cr (by rw [hL2s]; exact List.mem_cons_of_mem _ e)
     have hL2e : L2.isEmpty = false := by rw [hL2s]; rfl
-    have hshape : Spec.encodeHeader p = L1 ++ 13 :: 10 :: (L2 ++ 13 :: 10 :: [13, 10]) := by
-      unfold Spec.encodeHeader
+    have hshape : Spec.encodeHeaderW w p = L1 ++ 13 :: 10 :: (L2 ++ 13 :: 10 :: [13, 10]) := by
+      unfold Spec.encodeHeaderW
       simp only [hme, Bool.false_eq_true, if_false, Spec.crlf]
       rw [← hL1, ← hL2]; simp [List.append_assoc]
     rw [hshape]
@@ -419,5 +425,9 @@ theorem encodeHeader_headerOK (bkey : Bytes) (p : Part) (hw : Spec.WFpart bkey p
       rw [processHeaderLoop_succ _ _ _ (by simp)]
       simp [findCRLF]
     simp [hscan, hph]
+
+theorem encodeHeader_headerOK (bkey : Bytes) (p : Part) (hw : Spec.WFpart bkey p) :
+    headerOK (Spec.encodeHeader p) (metaOf p) = true :=
+  encodeHeaderW_headerOK false bkey p hw
 
 end Cppcms.C12
